@@ -50,6 +50,7 @@ fn main() {
     let _ = props::CTX.set(Ctx { prop: ctx.prop.clone(), tier: ctx.tier, seed: ctx.seed, replay: ctx.replay.clone(), start: ctx.start, threads: ctx.threads });
     let code = match prop.as_str() {
         "C01" => props::c01::run(&ctx),
+        "C02" => props::c02::run(&ctx),
         "C03" => props::c03::run(&ctx),
         "C04" => props::c04::run(&ctx),
         "C07" => props::c07::run(&ctx),
